@@ -107,7 +107,7 @@ SampleOK(incl, cnt, byt) ==
       ssz == IF Busy = 1 THEN srv[1].sz ELSE 0
   IN IF incl = 1
      THEN /\ cnt \in {Waiting + Busy, Waiting + Busy + lim}
-          /\ byt \in {bytes, bytes - lsz}
+          /\ byt = bytes                      \* every byte held, whether waiting, fetched or in transmission
      ELSE /\ cnt \in {Waiting, Waiting + lim}
           /\ byt \in {bytes - ssz, bytes - ssz - lsz}
 
